@@ -3,7 +3,7 @@ From Coq Require Import List NArith String Bool.
 From V Require Import Base.Strings Base.Result Model.Registry Model.Settings Model.Subst
   Model.TypePath Model.Derives Model.Generate Model.Emit Model.Equal Model.Switches Model.Inputs
   Proofs.GenProofs Proofs.SortDedup Proofs.TpMap Proofs.SubstMap Proofs.EmitMap Proofs.FramesIR
-  Proofs.FramesGen Proofs.Frames Proofs.FrameRel.
+  Proofs.FramesGen Proofs.Frames Proofs.FrameRel Model.Erasure Proofs.ErasureProofs.
 Import ListNotations.
 Open Scope string_scope. Open Scope list_scope.
 
@@ -215,8 +215,8 @@ Print Assumptions C09_compact_marker.
     The alloc-prefix, compact-path and bits-path frames replace a token LIST by another list;
     they are proved in section 6 below with the alignment relation [frame_rel].  The docs /
     codec frames are proved at IR level (section 1) together with [C09_emit_module_map]; their
-    token-level form "erasing the [#[doc = ..]] / [#[codec(..)]] groups of both outputs gives
-    equal lists" is not derived here. *)
+    token-level form "erasing the [#[doc = ..]] / [#[codec(..)]] groups of the switched-on output
+    gives the switched-off output" is section 7 below. *)
 Theorem C09_root_rename :
   forall r s root2 teq,
     ~ gen_lit (s_docs s) (s_codec s) (s_root s) ->
@@ -341,3 +341,158 @@ Print Assumptions C09_frame_rel_tokens.
 Theorem C09_frame_rel_id : forall a l1 l2, frame_rel a a l1 l2 -> l1 = l2.
 Proof. exact frame_rel_id. Qed.
 Print Assumptions C09_frame_rel_id.
+
+(** * 7. Token-level frames of the two BOOLEAN switches (Model/Erasure.v, Proofs/ErasureProofs.v).
+
+    [erase_doc_attrs] / [erase_codec_attrs] are explicit functions on token lists: scan left to
+    right, at the head of a governed group ( # [ doc = "lit" ]   resp.   # [ codec ( compact ) ] ,
+    # [ codec ( skip ) ] ,  # [ codec ( index = k ) ] ) drop the whole group and resume behind it.
+    [ins_rel G on off]: [on] is [off] with groups of [G] inserted.  [has_open kw l]: the
+    contiguous tokens  # [ kw  occur in [l].
+
+    The codec switch is a PURE erasure as well: a compact field is printed as the bare inner type
+    under both settings ([is_field] does not depend on [s_codec]; ir/type_ir.rs:227-287,
+    type_path.rs:329-343); codec off only omits the attribute.  (So with codec off the generated
+    type silently loses the compact wire format - a remark, not a statement of this file.) *)
+
+(** the alignment holds unconditionally, for every outcome (same error / panic on both sides) *)
+Theorem C09_docs_alignment :
+  forall r s teq,
+    res_rel (ins_rel doc_group) (gen_emit r (set_docs true s) teq) (gen_emit r (set_docs false s) teq).
+Proof. exact docs_align. Qed.
+Print Assumptions C09_docs_alignment.
+
+Theorem C09_codec_alignment :
+  forall r s teq,
+    res_rel (ins_rel codec_group) (gen_emit r (set_codec true s) teq) (gen_emit r (set_codec false s) teq).
+Proof. exact codec_align. Qed.
+Print Assumptions C09_codec_alignment.
+
+(** ... per item and for the module emitter *)
+Theorem C09_docs_alignment_item :
+  forall s ir,
+    res_rel (ins_rel doc_group) (type_ir_tokens s ir) (type_ir_tokens s (strip_docs_ir ir)).
+Proof. exact docs_align_item. Qed.
+Print Assumptions C09_docs_alignment_item.
+
+Theorem C09_codec_alignment_item :
+  forall s ir,
+    res_rel (ins_rel codec_group)
+            (type_ir_tokens s (set_codec_ir true ir)) (type_ir_tokens s (set_codec_ir false ir)).
+Proof. exact codec_align_item. Qed.
+Print Assumptions C09_codec_alignment_item.
+
+Theorem C09_docs_alignment_emit :
+  forall s (m : items),
+    res_rel (ins_rel doc_group) (emit_module s m) (emit_module s (map_items strip_docs_ir m)).
+Proof. exact docs_align_emit. Qed.
+Print Assumptions C09_docs_alignment_emit.
+
+Theorem C09_codec_alignment_emit :
+  forall s (m : items),
+    res_rel (ins_rel codec_group) (emit_module s (map_items (set_codec_ir true) m))
+            (emit_module s (map_items (set_codec_ir false) m)).
+Proof. exact codec_align_emit. Qed.
+Print Assumptions C09_codec_alignment_emit.
+
+(** what an alignment means: a sequence of blocks, each a kept token or an inserted group *)
+Theorem C09_docs_alignment_blocks :
+  forall on off, ins_rel doc_group on off ->
+    exists bs, (forall g, In (BGrp g) bs -> doc_group g) /\ on = on_of bs /\ off = off_of bs.
+Proof. exact ins_rel_blocks_doc. Qed.
+Print Assumptions C09_docs_alignment_blocks.
+
+Theorem C09_codec_alignment_blocks :
+  forall on off, ins_rel codec_group on off ->
+    exists bs, (forall g, In (BGrp g) bs -> codec_group g) /\ on = on_of bs /\ off = off_of bs.
+Proof. exact ins_rel_blocks_codec. Qed.
+Print Assumptions C09_codec_alignment_blocks.
+
+(** the list-level lemma: an aligned pair whose off-side does not contain  # [ kw  is related by
+    the eraser *)
+Theorem C09_erase_doc_aligned :
+  forall on off, ins_rel doc_group on off -> has_open "doc" off = false -> erase_doc_attrs on = off.
+Proof. exact erase_doc_ins_rel. Qed.
+Print Assumptions C09_erase_doc_aligned.
+
+Theorem C09_erase_codec_aligned :
+  forall on off, ins_rel codec_group on off -> has_open "codec" off = false -> erase_codec_attrs on = off.
+Proof. exact erase_codec_ins_rel. Qed.
+Print Assumptions C09_erase_codec_aligned.
+
+(** the docs frame, end to end.  [s_on] has docs on, [s_off = set_docs false s_on] differs from it
+    in [s_docs] only.  Hypothesis (decidable; needed, see [ex_docs_hypothesis_needed] in
+    Proofs/ExamplesErasure.v): the word [doc] does not occur among the caller's inputs
+    [gen_inputs r s] (root, alloc path, user tokens of the settings - derives, attributes,
+    substitute / compact / bits paths -, identifiers of the registry).
+    - generation has the same outcome kind (same error / panic, or both Ok with the doc lists
+      stripped);
+    - the module emitter, on the two item maps, has the same outcome kind and the docs-off tokens
+      are the docs-on tokens with every doc group erased;
+    - the same for generation followed by emission;
+    - the docs-off output contains no  # [ doc . *)
+Theorem C09_docs_erasure :
+  forall r s_on teq,
+    s_docs s_on = true -> word_free_inputs "doc" r s_on = true ->
+    generate r (set_docs false s_on) teq = rmap (map_items strip_docs_ir) (generate r s_on teq) /\
+    (forall m_on, generate r s_on teq = Ok m_on ->
+       emit_module (set_docs false s_on) (map_items strip_docs_ir m_on) =
+       rmap erase_doc_attrs (emit_module s_on m_on)) /\
+    gen_emit r (set_docs false s_on) teq = rmap erase_doc_attrs (gen_emit r s_on teq) /\
+    (forall toks_off, gen_emit r (set_docs false s_on) teq = Ok toks_off ->
+       has_open "doc" toks_off = false).
+Proof. exact docs_erasure_pinned. Qed.
+Print Assumptions C09_docs_erasure.
+
+(** the codec frame, end to end: with codec off the output is the codec-on output with every
+    [#[codec(index = k)]], [#[codec(compact)]] and [#[codec(skip)]] group erased; every other
+    token - in particular the type of a compact field - is identical *)
+Theorem C09_codec_erasure :
+  forall r s_on teq,
+    s_codec s_on = true -> word_free_inputs "codec" r s_on = true ->
+    generate r (set_codec false s_on) teq =
+      rmap (map_items (set_codec_ir false)) (generate r s_on teq) /\
+    (forall m_on, generate r s_on teq = Ok m_on ->
+       emit_module (set_codec false s_on) (map_items (set_codec_ir false) m_on) =
+       rmap erase_codec_attrs (emit_module s_on m_on)) /\
+    gen_emit r (set_codec false s_on) teq = rmap erase_codec_attrs (gen_emit r s_on teq) /\
+    (forall toks_off, gen_emit r (set_codec false s_on) teq = Ok toks_off ->
+       has_open "codec" toks_off = false).
+Proof. exact codec_erasure_pinned. Qed.
+Print Assumptions C09_codec_erasure.
+
+(** a-posteriori forms: no hypothesis on the inputs, only that the switched-off OUTPUT does not
+    contain  # [ kw  (decidable on the output; allows e.g. a field called [doc]) *)
+Theorem C09_docs_erasure_output :
+  forall r s teq toks_on toks_off,
+    gen_emit r (set_docs true s) teq = Ok toks_on ->
+    gen_emit r (set_docs false s) teq = Ok toks_off ->
+    has_open "doc" toks_off = false ->
+    erase_doc_attrs toks_on = toks_off.
+Proof. exact docs_erasure_output. Qed.
+Print Assumptions C09_docs_erasure_output.
+
+Theorem C09_codec_erasure_output :
+  forall r s teq toks_on toks_off,
+    gen_emit r (set_codec true s) teq = Ok toks_on ->
+    gen_emit r (set_codec false s) teq = Ok toks_off ->
+    has_open "codec" toks_off = false ->
+    erase_codec_attrs toks_on = toks_off.
+Proof. exact codec_erasure_output. Qed.
+Print Assumptions C09_codec_erasure_output.
+
+(** per item *)
+Theorem C09_docs_erasure_item :
+  forall s ir toks_off,
+    type_ir_tokens s (strip_docs_ir ir) = Ok toks_off -> has_open "doc" toks_off = false ->
+    exists toks_on, type_ir_tokens s ir = Ok toks_on /\ erase_doc_attrs toks_on = toks_off.
+Proof. exact docs_erasure_item. Qed.
+Print Assumptions C09_docs_erasure_item.
+
+Theorem C09_codec_erasure_item :
+  forall s ir toks_off,
+    type_ir_tokens s (set_codec_ir false ir) = Ok toks_off -> has_open "codec" toks_off = false ->
+    exists toks_on, type_ir_tokens s (set_codec_ir true ir) = Ok toks_on /\
+                    erase_codec_attrs toks_on = toks_off.
+Proof. exact codec_erasure_item. Qed.
+Print Assumptions C09_codec_erasure_item.
